@@ -1917,6 +1917,88 @@ def o_ring_centroid(mir, tier, seed):
     return dict(theory='Real (nonlinear, degree 4); the ring area an uninterpreted value tied to the shoelace sum', functions=['CentroidOperation::add_ring', 'its fold closure', 'MapCoords for Line', 'Line::determinant'], paths=npaths, status=st, info=info, model=None, replay=('centroid_contributions', ''))
 
 
+# ---- C15: line_locate_point
+
+@obligation('C15', 'line_locate_point_real', 'over the reals: Line::line_locate_point is Some(0) for a zero-length line and otherwise Some(clamp(v.(p-s) / v.v, 0, 1)); in particular a point s + t v with 0 <= t <= 1 is mapped back to exactly t.  LineString::line_locate_point for 1-3 segments with ANY segment lengths, distances to the query and per-segment fractions (uninterpreted): Some(0) when the total length is 0, None when a segment has no fraction, otherwise (length before the FIRST segment of minimal distance + its fraction x its length) / total (each path re-executed from scratch)')
+def o_locate(mir, tier, seed):
+    from mir2smt import SliceIter
+    T = RealTheory()
+    bad, assume, npaths = [], [], 0
+    extra = dict(EXTRA)
+    extra[r'geo_types::Point::<\w+>::dot'] = ('geo_types', r'geometry::point::<impl at [^>]*>::dot')
+    extra[r'geo_types::Point::<\w+>::x'] = ('geo_types', r'geometry::point::<impl at [^>]*>::x')
+    extra[r'geo_types::Point::<\w+>::y'] = ('geo_types', r'geometry::point::<impl at [^>]*>::y')
+    extra[r'geometry::point::Point::<\w+>::x'] = ('geo_types', r'geometry::point::<impl at [^>]*>::x')
+    extra[r'geometry::point::Point::<\w+>::y'] = ('geo_types', r'geometry::point::<impl at [^>]*>::y')
+    extra[r'<geo_types::Point<\w+> as Sub>::sub'] = ('geo_types', r'geometry::point::<impl at [^>]*>::sub')
+    extra[r'<geometry::coord::Coord<\w+> as Sub>::sub'] = ('geo_types', r'geometry::coord::<impl at [^>]*>::sub')
+    extra[r'geometry::point::Point::<\w+>::new'] = ('geo_types', r'geometry::point::<impl at [^>]*>::new')
+    L = r'line_locate_point::<impl at [^>]*>::line_locate_point'
+    s_, e_, p_ = coord(T, 'ls'), coord(T, 'le'), coord(T, 'lp')
+    uf = {'re:geo_types::Line::<\\w+>::start_point': lambda ip, d: [list(deref(d[0])[0])],
+          're:<geo_types::Coord<\\w+> as Into<geo_types::Point<\\w+>>>::into': lambda ip, d: [d[0]]}
+    ip = Interp(mir, T, extra, uf)
+    outs = ip.call_fn(mir.find('geo', L, sig=r'_1: &geo_types::Line<T>'), [Ref(lambda: [s_, e_]), Ref(lambda: [p_])], z3.BoolVal(True))
+    npaths += len(outs)
+    v = [e_[0] - s_[0], e_[1] - s_[1]]
+    vsq = v[0] * v[0] + v[1] * v[1]
+    dot = v[0] * (p_[0] - s_[0]) + v[1] * (p_[1] - s_[1])
+    t = T.var('t_on_line')
+    on_line = z3.And(t >= 0, t <= 1, p_[0] == s_[0] + t * v[0], p_[1] == s_[1] + t * v[1])
+    bad.append(z3.Not(z3.Or([pc for pc, _ in outs])))
+    for pc, r in outs:
+        r = deref(r)
+        if not variant_is(r, 'Some'):
+            bad.append(pc)
+            continue
+        l = deref(r.fields[0])
+        raw = dot / vsq
+        clamp = z3.If(raw < 0, 0, z3.If(raw > 1, 1, raw))
+        bad.append(z3.And(pc, z3.If(vsq == 0, l != 0, z3.Or(l != clamp, z3.And(on_line, l != t)))))
+    # LineString
+    fnls = mir.find('geo', L, sig=r'_1: &geo_types::LineString<T>')
+    for n in (1, 2, 3):
+        lens = [T.var('len_%d_%d' % (n, i)) for i in range(n)]
+        dist = [T.var('dist_%d_%d' % (n, i)) for i in range(n)]
+        frac = [T.var('frac_%d_%d' % (n, i)) for i in range(n)]
+        hasf = [z3.Bool('hasfrac_%d_%d' % (n, i)) for i in range(n)]
+        total = T.var('total_%d' % n)
+        cond = [x >= 0 for x in lens + dist]
+        uf = {'re:geo_types::LineString::<\\w+>::lines': lambda ip, d, n=n: SliceIter([('seg', i) for i in range(n)]),
+              're:<geo_types::LineString<T> as (algorithm::)?euclidean_length::EuclideanLength<T>>::euclidean_length': lambda ip, d, total=total: total,
+              're:<geo_types::Line<T> as (algorithm::)?euclidean_length::EuclideanLength<T>>::euclidean_length': lambda ip, d, lens=lens: lens[deref(d[0])[1]],
+              're:<geo_types::Line<T> as (algorithm::)?euclidean_distance::EuclideanDistance<T, geo_types::Point<T>>>::euclidean_distance': lambda ip, d, dist=dist: dist[deref(d[0])[1]],
+              're:<geo_types::Line<T> as (algorithm::)?line_locate_point::LineLocatePoint<T, geo_types::Point<T>>>::line_locate_point':
+                  lambda ip, d, frac=frac, hasf=hasf: ('fork', [(hasf[deref(d[0])[1]], Enum('Some', [frac[deref(d[0])[1]]])), (z3.Not(hasf[deref(d[0])[1]]), Enum('None'))])}
+        ip = Interp(mir, T, extra, uf)
+        res = ip.explore(fnls, lambda: [Ref(lambda: ('linestring',)), Ref(lambda: ('query',))])
+        npaths += len(res)
+        inf = getattr(ip, 'infinity', None)
+        if inf is not None:
+            cond += [inf > x for x in dist]
+        c = z3.And(cond)
+        bad.append(z3.And(c, z3.Not(z3.Or([pc for pc, _, _ in res]))))
+        # expected
+        best = 0
+        want = None
+        # first index of minimal distance, expressed as nested Ifs
+        def expr_for(k):
+            return (sum(lens[:k]) + frac[k] * lens[k]) / total if k else (frac[0] * lens[0]) / total
+        is_first_min = lambda k: z3.And([z3.BoolVal(True)] + [dist[k] < dist[j] for j in range(k)] + [dist[k] <= dist[j] for j in range(k + 1, n)])
+        all_frac = z3.And(hasf)
+        for pc, r, _ in res:
+            r = deref(r)
+            if variant_is(r, 'None'):
+                bad.append(z3.And(c, pc, total != 0, all_frac))
+                bad.append(z3.And(c, pc, total == 0))
+                continue
+            val = deref(r.fields[0])
+            okv = z3.If(total == 0, val == 0, z3.And(all_frac, z3.And([z3.Implies(is_first_min(k), val == expr_for(k)) for k in range(n)])))
+            bad.append(z3.And(c, pc, z3.Not(okv)))
+    st, info, model = check_unsat('line_locate_point_real', assume + [z3.Or(bad)], timeout_s=30)
+    return dict(theory='Real (nonlinear); no NaN / infinity in the reals (is_finite = true; T::infinity() an uninterpreted value above every distance)', functions=['LineLocatePoint for Line', 'LineLocatePoint for LineString', 'Point::dot'], paths=npaths, status=st, info=info, model=None, replay=('line_locate_point', ''))
+
+
 # ---- C05 kernels
 
 @obligation('C05', 'line_determinant_int', 'for ALL integers: Line::determinant() = start.x*end.y - start.y*end.x (the shoelace term)')
